@@ -79,10 +79,17 @@ def forms(pane, A, B, C=None):
     out.append(('generic_left', grammar.pin(G1[A]), lambda v: {'f': v}, lambda r: r.f, mem))
     G2 = grammar.pin(new_class('GenR', (pane.PaneBase, t.Generic[T_]), {'__annotations__': {'f': t.Union[A, T_]}, '__module__': 'mc.generated'}))
     out.append(('generic_right', grammar.pin(G2[B]), lambda v: {'f': v}, lambda r: r.f, mem))
+    # the whole union as the argument of ONE generic class shared by every pair and both orders: subscription is memoised by
+    # pane, and Union[A, B] == Union[B, A] - the class made for one order must not answer for the other
+    if not _GW:
+        _GW.append(grammar.pin(new_class('GenWhole', (pane.PaneBase, t.Generic[T_]), {'__annotations__': {'f': T_, 'g': t.List[T_]}, '__module__': 'mc.generated'})))
+    out.append(('generic_whole', grammar.pin(_GW[0][U]), lambda v: {'f': v, 'g': []}, lambda r: r.f, mem))
+    out.append(('generic_whole_builtin_list', grammar.pin(_GW[0][list[U]]), lambda v: {'f': [v], 'g': []}, lambda r: r.f[0], mem))
     return out
 
 
 _X3: t.List[t.Any] = []
+_GW: t.List[t.Any] = []
 
 
 def _times3(pane):
